@@ -333,7 +333,26 @@ fn observe(s: &Scenario, r: &RunResult) -> Obs {
         .collect();
     warnings.sort();
     let hist = generator_histories(&r.trace);
-    let requests: Vec<Vec<u8>> = hist.iter().filter(|h| h.spawn_errno.is_none()).map(|h| h.stdin_accepted.clone()).collect();
+    // (a compiler that sends absolute paths sends this execution's world root: not part of the behaviour)
+    let strip_root = |bytes: &Vec<u8>| -> Vec<u8> {
+        let root = r.root.as_bytes();
+        if root.is_empty() {
+            return bytes.clone();
+        }
+        let mut out = Vec::with_capacity(bytes.len());
+        let mut i = 0;
+        while i < bytes.len() {
+            if bytes[i..].starts_with(root) {
+                out.extend_from_slice(b"@ROOT@");
+                i += root.len();
+            } else {
+                out.push(bytes[i]);
+                i += 1;
+            }
+        }
+        out
+    };
+    let requests: Vec<Vec<u8>> = hist.iter().filter(|h| h.spawn_errno.is_none()).map(|h| strip_root(&h.stdin_accepted)).collect();
     let mut chunks = BTreeMap::new();
     let mut chunk_error = None;
     if let Some(first) = hist.iter().find(|h| h.spawn_errno.is_none() && h.stdin_error.is_none() && h.stdin_known) {
@@ -363,8 +382,8 @@ fn observe(s: &Scenario, r: &RunResult) -> Obs {
     Obs {
         crashed: r.crashed(),
         exit: r.exit,
-        stdout: r.stdout.clone(),
-        stderr: r.stderr.clone(),
+        stdout: String::from_utf8_lossy(&r.stdout).replace(&r.root, "@ROOT@").into_bytes(),
+        stderr: String::from_utf8_lossy(&r.stderr).replace(&r.root, "@ROOT@").into_bytes(),
         requests,
         files,
         accepted: compile_errors.is_empty(),
